@@ -126,6 +126,22 @@ def run(R):
         g_gone = CallGuard([SC + "get_process_pid"], ("Err",), "process not found")
         # `.is_ok()` form: is_ok false ⇒ not found
         R.gate("C19.stop", stop, CallSink(SSA + "on_stop"), [[g_stopped, g_gone]], descr="stop: on_stop only after the OS stopped the service or the process was already gone")
+    upg = R.body("C19.upgrade", SM + "upgrade::{closure#0}")
+    if upg is not None:
+        prep(upg)
+        g_stop = CallGuard([SM + "stop"], ("Ok",), "self.stop() is Ok")
+        g_inst = CallGuard([SC + "install"], ("Ok",), "service_control.install is Ok")
+        g_start = CallGuard([SM + "start"], ("Ok",), "self.start() is Ok")
+        R.gate("C19.upgrade.stop", upg, CallSink("std::fs::copy", SC + "uninstall", SC + "install"), [[g_stop]],
+               descr="upgrade replaces the binary and the service definition only after the service was stopped", min_sinks=3)
+        R.gate("C19.upgrade.version", upg, CallSink(SSA + "set_version"), [[g_inst]],
+               descr="the new version is recorded only after the new definition was installed", min_sinks=1)
+        from rules import FieldBoolGuard
+        done = AggSink("ant_service_management::UpgradeResult", "Upgraded")
+        forced = AggSink("ant_service_management::UpgradeResult", "Forced")
+        both = BlockSink(lambda b: sorted(set(done.blocks(b)) | set(forced.blocks(b))), "UpgradeResult::Upgraded/Forced")
+        R.gate("C19.upgrade.result", upg, both, [[g_start, FieldBoolGuard("start_service", want=False, label="start was not requested")]],
+               descr="Upgraded/Forced is reported only if the restart succeeded (or none was requested)", min_sinks=2)
     rem = R.body("C19.remove", SM + "remove::{closure#0}")
     if rem is not None:
         prep(rem)
